@@ -36,6 +36,7 @@ func propC10(c *Ctx) {
 	// what a PASTE brings exists only in the expanded list: every collector after the expansion must work on it
 	c.ruleExpandedTree()
 	c.ruleWalkEveryKind("C10-WALK-EVERY-KIND")
+	c.ruleExplicitFlagWriters("C10-EXPLICIT-FLAG-WRITERS") // the expansion pass reads the flag again
 }
 
 // ruleValueReceiverWrites: a method with a value receiver works on a copy of the struct, but the copy shares every map,
